@@ -8,7 +8,31 @@ let bytes_of_tok (t : string) : z list =
 let opt_of_tok t = if t = "N" then None else Some (bytes_of_tok t)
 let hex_of (l : z list) : string =
   if l = [] then "-" else String.concat "" (List.map (fun b -> Printf.sprintf "%02x" (int_of_z b)) l)
+let show_pred ((tag, p) : z * z list) : string =
+  match int_of_z tag with 1 -> hex_of p | 2 -> "ELSEWHERE" | _ -> "P"
+let url_mode (cab : bool) =
+  let root = bytes_of_tok "2f726f6f742f" in        (* /root/ *)
+  try
+    while true do
+      let line = input_line stdin in
+      if String.length line > 0 && line.[0] <> '#' then begin
+        match split_ws line with
+        | ["B"; suffix] ->
+          (* a.pdb/5A9832E5287241C1838ED98914E9B7FF1/a.sym *)
+          let rel = List.map (fun c -> z_of_int (Char.code c))
+              (List.of_seq (String.to_seq "a.pdb/5A9832E5287241C1838ED98914E9B7FF1/a.sym")) in
+          print_endline ("B|" ^ show_pred (base_case (bytes_of_tok suffix) rel))
+        | [cf; df; did; cid] ->
+          let r = url_case cab root (bytes_of_tok cf) (opt_of_tok df) (opt_of_tok did) (opt_of_tok cid) in
+          print_endline ("U|" ^ String.concat "|" (List.map (fun l -> String.concat "," (List.map show_pred l)) r))
+        | _ -> print_endline "E;;bad case line"
+      end
+    done
+  with End_of_file -> ()
 let () =
+  if Array.length Sys.argv > 1 && Sys.argv.(1) = "--url" then (url_mode false; exit 0);
+  if Array.length Sys.argv > 1 && Sys.argv.(1) = "--url-cab" then (url_mode true; exit 0);
+
   try
     while true do
       let line = input_line stdin in
